@@ -544,44 +544,14 @@ func nssaiStepJob(w *core.World, base func(fn *ssa.Function, ord int) *sym.LoopS
 	name := "nasConvert.RequestedNssaiToModels"
 	var buf sym.Content
 	var n *Term
-	carried := func(headFr, fr *sym.Frame, vname string) (sym.Value, sym.Value, bool) {
-		hs := sym.LoopHeaders(fn)
-		if len(hs) == 0 {
-			return nil, nil, false
-		}
-		h := hs[0]
-		for _, in := range h.Instrs {
-			phi, ok := in.(*ssa.Phi)
-			if !ok || phi.Comment != vname {
-				continue
-			}
-			v0, ok0 := headFr.Env[phi]
-			if !ok0 {
-				return nil, nil, false
-			}
-			inLoop := sym.LoopBlocks(h)
-			var back []ssa.Value
-			for i, pr := range h.Preds {
-				if inLoop[pr] {
-					back = append(back, phi.Edges[i])
-				}
-			}
-			if len(back) != 1 {
-				return nil, nil, false
-			}
-			v1, ok1 := fr.Env[back[0]]
-			return v0, v1, ok1
-		}
-		return nil, nil, false
-	}
 	loops := func(f *ssa.Function, ord int) *sym.LoopSpec {
 		ls := base(f, ord)
 		if f != fn || ord != 0 || ls == nil {
 			return ls
 		}
 		ls.OnBackEdge = func(fx *sym.FnExec, head *sym.State, headFr *sym.Frame, fr *sym.Frame, st *sym.State) {
-			o0v, o1v, okO := carried(headFr, fr, "offset")
-			l0v, l1v, okL := carried(headFr, fr, "requestNssai")
+			o0v, o1v, okO := loopCarried(fn, headFr, fr, "offset")
+			l0v, l1v, okL := loopCarried(fn, headFr, fr, "requestNssai")
 			if !okO || !okL {
 				fx.Oblige(st, name+"#step.offset", "inv.preserve", False, "", "loop-carried offset / result list not found at the back edge")
 				return
@@ -595,31 +565,7 @@ func nssaiStepJob(w *core.World, base func(fn *ssa.Function, ord int) *sym.LoopS
 			g := []*Term{Eq(list1.Len, Add(list0.Len, bv64(1)))}
 			// the appended entry: the one-element argument list of the loop's only append call (the result list itself
 			// is a slice of structs of symbolic length, whose contents the engine does not track)
-			var ent sym.Value
-			nApp := 0
-			for _, b := range fn.Blocks {
-				for _, in := range b.Instrs {
-					c, ok := in.(*ssa.Call)
-					if !ok {
-						continue
-					}
-					if bi, ok := c.Call.Value.(*ssa.Builtin); !ok || bi.Name() != "append" || len(c.Call.Args) != 2 {
-						continue
-					}
-					nApp++
-					if av, ok := fr.Env[c.Call.Args[1]].(sym.SliceV); ok && av.Obj != nil && av.Len.IsConst() && av.Len.Val == 1 && av.Off.IsConst() {
-						if a, ok := st.Heap[av.Obj].(sym.ArrS); ok && int(av.Off.Val) < len(a.Elems) {
-							ent = a.Elems[av.Off.Val]
-						}
-					}
-					if r, ok := fr.Env[c].(sym.SliceV); !ok || r.Obj != list1.Obj {
-						ent = nil // the list carried to the next iteration is not this append's result
-					}
-				}
-			}
-			if nApp != 1 {
-				ent = nil
-			}
+			ent := onlyAppended(fn, fr, st, list1)
 			e, ok := ent.(sym.StructV)
 			if !ok {
 				fx.Oblige(st, name+"#step.entry", "inv.preserve", False, "", "the loop does not carry the result of a single one-element append to the next iteration")
@@ -661,10 +607,121 @@ func nssaiStepJob(w *core.World, base func(fn *ssa.Function, ord int) *sym.LoopS
 	return job, loops
 }
 
+// loopCarried returns the value of the source variable vname at the head of fn's first loop (from headFr) and the
+// value carried to the next iteration at the back edge (from fr); the loop must have a single back edge.
+func loopCarried(fn *ssa.Function, headFr, fr *sym.Frame, vname string) (sym.Value, sym.Value, bool) {
+	hs := sym.LoopHeaders(fn)
+	if len(hs) == 0 {
+		return nil, nil, false
+	}
+	h := hs[0]
+	for _, in := range h.Instrs {
+		phi, ok := in.(*ssa.Phi)
+		if !ok || phi.Comment != vname {
+			continue
+		}
+		v0, ok0 := headFr.Env[phi]
+		if !ok0 {
+			return nil, nil, false
+		}
+		inLoop := sym.LoopBlocks(h)
+		var back []ssa.Value
+		for i, pr := range h.Preds {
+			if inLoop[pr] {
+				back = append(back, phi.Edges[i])
+			}
+		}
+		if len(back) != 1 {
+			return nil, nil, false
+		}
+		v1, ok1 := fr.Env[back[0]]
+		return v0, v1, ok1
+	}
+	return nil, nil, false
+}
+
+// onlyAppended returns the single element passed to fn's only append call, provided that call's result is the list
+// carried to the next iteration (list1); nil otherwise.
+func onlyAppended(fn *ssa.Function, fr *sym.Frame, st *sym.State, list1 sym.SliceV) sym.Value {
+	var ent sym.Value
+	nApp := 0
+	for _, b := range fn.Blocks {
+		for _, in := range b.Instrs {
+			c, ok := in.(*ssa.Call)
+			if !ok {
+				continue
+			}
+			if bi, ok := c.Call.Value.(*ssa.Builtin); !ok || bi.Name() != "append" || len(c.Call.Args) != 2 {
+				continue
+			}
+			nApp++
+			if av, ok := fr.Env[c.Call.Args[1]].(sym.SliceV); ok && av.Obj != nil && av.Len.IsConst() && av.Len.Val == 1 && av.Off.IsConst() {
+				if a, ok := st.Heap[av.Obj].(sym.ArrS); ok && int(av.Off.Val) < len(a.Elems) {
+					ent = a.Elems[av.Off.Val]
+				}
+			}
+			if r, ok := fr.Env[c].(sym.SliceV); !ok || r.Obj != list1.Obj {
+				ent = nil // the list carried to the next iteration is not this append's result
+			}
+		}
+	}
+	if nApp != 1 {
+		return nil
+	}
+	return ent
+}
+
+// ladnStepJob: LadnToModels on ANY contents and any number of DNNs (same decomposition as nssaiStepJob): every
+// iteration that reaches the back edge started at an offset within the contents, read the length octet L there,
+// lies within the contents (offset + 1 + L <= length), advances the offset by exactly 1 + L and appends exactly one
+// string, whose octets are the L octets after the length octet.
+func ladnStepJob(w *core.World, base func(fn *ssa.Function, ord int) *sym.LoopSpec) (Job, func(fn *ssa.Function, ord int) *sym.LoopSpec) {
+	fn := w.Funcs["nasConvert.LadnToModels"]
+	name := "nasConvert.LadnToModels"
+	var buf sym.Content
+	var n *Term
+	loops := func(f *ssa.Function, ord int) *sym.LoopSpec {
+		ls := base(f, ord)
+		if f != fn || ord != 0 || ls == nil {
+			return ls
+		}
+		ls.OnBackEdge = func(fx *sym.FnExec, head *sym.State, headFr *sym.Frame, fr *sym.Frame, st *sym.State) {
+			o0v, o1v, okO := loopCarried(fn, headFr, fr, "bufOffset")
+			l0v, l1v, okL := loopCarried(fn, headFr, fr, "dnnValues")
+			if !okO || !okL {
+				fx.Oblige(st, name+"#step.offset", "inv.preserve", False, "", "loop-carried offset / result list not found at the back edge")
+				return
+			}
+			off0, off1 := o0v.(sym.Scalar).T, o1v.(sym.Scalar).T
+			list0, list1 := l0v.(sym.SliceV), l1v.(sym.SliceV)
+			L := ZExt(64, buf.Elem(off0))
+			fx.Oblige(st, name+"#step.offset", "inv.preserve",
+				And(ULt(off0, n), Eq(off1, Add(off0, Add(L, bv64(1)))), ULe(off1, n)), "",
+				"an iteration that continues started within the contents, its entry lies within the contents, and the offset advances by exactly 1 + length")
+			e, ok := onlyAppended(fn, fr, st, list1).(sym.StrV)
+			if !ok {
+				fx.Oblige(st, name+"#step.entry", "inv.preserve", False, "", "the loop does not carry the result of a single one-element append to the next iteration")
+				return
+			}
+			fx.Oblige(st, name+"#step.entry", "inv.preserve",
+				And(Eq(list1.Len, Add(list0.Len, bv64(1))), Eq(e.Len, L), fx.EqContent(e.C, e.Off, buf, Add(off0, bv64(1)), L)), "",
+				"an iteration appends exactly one DNN, the value octets that follow the length octet it read")
+		}
+		return ls
+	}
+	job := Job{Fn: fn, Spec: &sym.FnSpec{Tag: "any octets: step relation of the decoder loop",
+		Args: func(fx *sym.FnExec, st *sym.State) []sym.Value {
+			s, c, l := mkBytesArg(fx, st, "buf")
+			buf, n = c, l
+			return []sym.Value{s}
+		}}}
+	return job, loops
+}
+
 func c13(w *core.World, rep *core.Report) {
 	std(rep)
 	thorough := rep.Tier == "thorough"
-	rep.Explain = "Per-entry converters (SnssaiToNas, RejectedSnssaiToNas, SnssaiToModels, snssaiToModels) carry contracts stating the octets / fields of TS 24.501 9.11.2.8 and 9.11.3.46 and are proved for all values. The list encoders and decoders are executed symbolically with the loops unrolled on lists of every length up to the bound stated per function (entries fully symbolic: SST, SD present or absent, PLMN digits with 2- or 3-digit MNC, TACs, DNN text of any length) and compared with an independent description of the layout written as term builders from 9.11.3.9, 9.11.3.29, 9.11.3.30, 9.11.3.37, 9.11.3.46 and 9.11.3.49; the decoders are also run on arbitrary octets: every returned entry must be the value found at its offset, entries must tile the contents, and malformed lengths must be errors. For RequestedNssaiToModels the same statement is also proved per iteration for contents with ANY number of entries: the loop is cut at its invariant and every iteration that continues is shown, from an arbitrary loop-head state, to have read a legal length octet, to stay within the contents, to advance the offset by exactly length + 1 and to append exactly one entry, the S-NSSAI value found at the offset (induction over iterations on paper)."
+	rep.Explain = "Per-entry converters (SnssaiToNas, RejectedSnssaiToNas, SnssaiToModels, snssaiToModels) carry contracts stating the octets / fields of TS 24.501 9.11.2.8 and 9.11.3.46 and are proved for all values. The list encoders and decoders are executed symbolically with the loops unrolled on lists of every length up to the bound stated per function (entries fully symbolic: SST, SD present or absent, PLMN digits with 2- or 3-digit MNC, TACs, DNN text of any length) and compared with an independent description of the layout written as term builders from 9.11.3.9, 9.11.3.29, 9.11.3.30, 9.11.3.37, 9.11.3.46 and 9.11.3.49; the decoders are also run on arbitrary octets: every returned entry must be the value found at its offset, entries must tile the contents, and malformed lengths must be errors. For RequestedNssaiToModels and LadnToModels the same statement is also proved per iteration for contents with ANY number of entries: the loop is cut at its invariant and every iteration that continues is shown, from an arbitrary loop-head state, to have read a legal length octet, to stay within the contents, to advance the offset by exactly length + 1 and to append exactly one entry, the S-NSSAI value (the DNN value octets, for LadnToModels) found at the offset (induction over iterations on paper)."
 	jobs := ContractJobs(w, rep, []string{"nasConvert.SnssaiToModels", "nasConvert.SnssaiToNas", "nasConvert.RejectedSnssaiToNas", "nasConvert.snssaiToModels"})
 	RunJobs(w, rep, jobs)
 
@@ -673,6 +730,9 @@ func c13(w *core.World, rep *core.Report) {
 	nsJob, nsLoops := nssaiStepJob(w, base)
 	w.Cx.Loops = nsLoops
 	RunJobs(w, rep, []Job{nsJob})
+	ldJob, ldLoops := ladnStepJob(w, base)
+	w.Cx.Loops = ldLoops
+	RunJobs(w, rep, []Job{ldJob})
 	w.Cx.Loops = base
 	// list functions: loops executed directly
 	w.Cx.Loops = func(fn *ssa.Function, ord int) *sym.LoopSpec {
@@ -744,11 +804,11 @@ func c13(w *core.World, rep *core.Report) {
 		core.Bounded{Function: "nasConvert.RequestedNssaiToModels", Bound: fmt.Sprintf("complete result list: contents that decode into at most %d entries (the NSSAI maximum); arbitrary octets otherwise. The per-iteration step relation (legal length octet, entry within the contents, offset advances by length + 1, exactly one entry appended and it is the value at the offset) holds for any number of entries", maxNssai)},
 		core.Bounded{Function: "nasConvert.PartialServiceAreaListToNas", Bound: "one area with 1..16 TACs and five multi-area shapes (up to 16 TACs), both restriction types"},
 		core.Bounded{Function: "nasConvert.LadnToNas", Bound: fmt.Sprintf("DNN text of any length up to 255 octets, TAI lists of 1..%d entries", maxLadn)},
-		core.Bounded{Function: "nasConvert.LadnToModels", Bound: fmt.Sprintf("contents that decode into at most %d DNNs", maxNssai)})
+		core.Bounded{Function: "nasConvert.LadnToModels", Bound: fmt.Sprintf("complete result list: contents that decode into at most %d DNNs. The per-iteration step relation (offset within the contents, advances by 1 + length, exactly one DNN appended and it is the value after the length octet) holds for any number of DNNs", maxNssai)})
 	rep.Floor = 200
 	rep.AddUnique(&rep.Assumptions,
 		"inputs of the encoders are well-formed in the sense of the property: SD absent or 6 hexadecimal digits, MCC 3 digits, MNC 2 or 3 digits, TAC 6 hexadecimal digits, at least one TAI / TAC; ill-formed text is logged and skipped by the library and is outside the statement",
 		"the DNN value inside a LADN entry is compared octet for octet with the text given; neither LadnToNas nor LadnToModels applies the label coding of 9.11.2.1B",
-		"RequestedNssaiToModels step relation: the entry checked is the one-element argument of the loop's only append, whose result is the list carried to the next iteration; that append keeps the earlier entries is Go's semantics of append, not an obligation (slices of structs of symbolic length have no tracked contents in the engine)",
+		"RequestedNssaiToModels / LadnToModels step relations: the entry checked is the one-element argument of the loop's only append, whose result is the list carried to the next iteration; that append keeps the earlier entries is Go's semantics of append, not an obligation (slices of structs of symbolic length have no tracked contents in the engine)",
 		"trusted models: hex.DecodeString / EncodeToString, reflect.DeepEqual on *models.PlmnId (field-wise string equality), strconv.Atoi on single characters")
 }
